@@ -1,14 +1,18 @@
 """C12 - Match distances obey signature semantics: exact, wildcard, decisive, monotone.
 
-Structural clauses decided (DESIGN.md §5 C12):
+Structural clauses decided:
  R1 software-string containment direction (haystack = observation, needle = signature)
  R2 penalty scale tables (as_score): High = 0 < Medium < Low (< Bad)
  R3 decisive components may return None and give Some(High) on equality; non-decisive never return None,
     give High on equality/wildcard and a positive penalty otherwise
  R4 quality tables: total over u32, non-increasing, inside [0.05, 1.0], 1.0 only at distance 0 (exhaustive by intervals)
- R5 the sum is saturating and contains every component exactly once, each `?`-propagated
+ R5 the sum is saturating and contains every component exactly once, each `?`-propagated, applied to (observed, signature)
  R6 wildcard arms (`Any`, absent mss/wscale) give High
  R7 header error bands: monotone interval table ending in None
+ R8 compared quantities are never narrowed (every integer conversion in the matching code widens)
+ R9 a signature header is charged only when it is not optional
+ R10 exact-match relation of every (observed form, signature form) arm of distance_ttl / distance_window_size equals the
+     specification table (normal form of the compared expressions)
 """
 from ..engine import cfg as C
 from ..engine import q as Q
@@ -595,7 +599,9 @@ def rule_R8(ctx):
                     ctx.check(WIDTH[to] >= WIDTH[fr], "R8", "%s:cast:%s->%s" % (T.short(b.path), fr, to), "widening conversion %s -> %s" % (fr, to),
                               "%s truncates a %s to %s before comparing it: values that differ by a multiple of 2^%d compare equal, so a signature is accepted as an exact "
                               "instance (distance 0) for observations it does not describe" % (T.short(b.path), fr, to, WIDTH[to]), ctx.loc(b, i))
-    ctx.floor("R8", "integer conversions in the matching code", n, 1)
+    # positive example for this zero-tolerance rule: the fact base does contain integer conversions (anywhere in the workspace)
+    total = sum(1 for b in P.bodies.values() for _, _, s in b.iter_stmts() if s["k"] == "assign" and s["r"]["k"] == "cast" and s["r"].get("ck") == "IntToInt")
+    ctx.floor("R8", "integer conversions exported for the workspace (matching code: %d)" % n, total, 40)
 
 
 def run(ctx):
